@@ -30,6 +30,7 @@ var c06Texts = []string{"1.5", "2.5", "-1.5", "0.5", "-0.5", "3", "10", "abc", "
 	// numerals beyond the double range convert to +-Infinity, below it to zero
 	"1" + strings.Repeat("0", 309), "-1" + strings.Repeat("0", 309), "9" + strings.Repeat("9", 320) + ".5", "0." + strings.Repeat("0", 400) + "1",
 	// only space, tab, CR and LF are white space: these are not numerals
+	"9007199254740993.00000000000000000000000000000000000000000001", "0.00000000000000000000001", "4503599627370496.5000000000000000000000000000000000000000001",
 	"\u00a05", "5\u00a0", "\u20031", "\v2", "3\f", "\u00852", "\u30004", "\ufeff6"}
 
 // splitText gives the text of an element as one text node or - the
@@ -194,8 +195,8 @@ func TestC06(t *testing.T) {
 		for i := 0; i < n; i++ {
 			s := c06Texts[rapid.IntRange(0, len(c06Texts)-1).Draw(t, "text")]
 			texts = append(texts, s)
-			if s == "0.1" || s == "0.2" {
-				exact = false
+			if s == "0.1" || s == "0.2" || len(s) > 20 && len(s) < 300 {
+				exact = false // (the out-of-range numerals are +-Infinity or 0: exact)
 			}
 			ev = append(ev, xmodel.Event{K: "S", Local: "a"}, xmodel.Event{K: "A", Local: "v", Value: s})
 			ev = append(ev, splitText(t, s)...)
@@ -216,7 +217,7 @@ func TestC06(t *testing.T) {
 		fn := []string{"sum", "sum", "count"}[rapid.IntRange(0, 2).Draw(t, "fn")]
 		e := xast.Call(fn, sel)
 		c := &evalCase{Events: ev, Ctx: "/", Expr: e, Text: xast.Render(e, xast.RapidChooser{T: t}, drawStyle(t))}
-		if fn == "sum" && !exact {
+		if fn == "sum" && !exact && len(texts) >= 2 {
 			// float sums of inexact terms depend on the order of addition;
 			// the property does not fix it: only exactly representable terms
 			// are compared exactly
